@@ -48,7 +48,7 @@ CHECKS = {
         'tolerances (1e-5 containment, 1e-4 relative uncovered area); coverage is decided on instances only.',
    design='5/C07'),
  'C04': dict(
-   technique='Coq proof over R (trigonometric identities for the two arcs of an S-bend, squared length, circle membership, sinusoidal end points) and over Q (linear / end) + source translator (LaserPath.init_point / start / end proved to open and close a path as the model says, coq/tie/EquivLb.v) + differential on the appended block of every segment call',
+   technique='Coq proof over R (trigonometric identities for the two arcs of an S-bend, squared length, circle membership, sinusoidal end points) and over Q (linear / end) + source translator (LaserPath.init_point / start / linear / end translated and proved to be the block functions of the model, coq/tie/EquivLb.v) + differential on the appended block of every segment call',
    text='Props/C04.v: for every radius r > 0 and offset |dy| <= 4r the two arcs of an S-bend start at the current point, end at '
         '(x0 + L, y0 +- |dy|) with L^2 = 4 r |dy| - dy^2, L >= 0, and every arc point lies on its circle of radius r; couplers / MZIs '
         'return to the entry y after 2L+|int| (4L+2|int|+|arm|); sinusoidal bends reach dy, bridges return to the original depth '
